@@ -310,6 +310,13 @@ theorem apply_good {s s' : St} {o : Op} (e : apply s o = .ok s') : Good s s' := 
   | update m => exact updateState_good e
   | fraud au ra hh rev p rw => exact fraud_good e
   | obsolete au vs => exact (markObsolete_fs e).good
+  | punish au a rw => exact (punish_fs (punishProposal_ok e).2).good
+  | transferOwner sg ra' no =>
+    obtain ⟨r, hg, _, _, _, rfl⟩ := transferOwner_ok e
+    exact (FS.setRa (r' := { r with owner := no }) hg rfl).good
+  | setSeqParams au sp =>
+    obtain ⟨_, hnp, _, rfl⟩ := setSeqParams_ok e
+    exact (FS.of_ras_eq (s := s) (s' := { s with sqp := sp }) rfl rfl rfl rfl).good
   | begin_ dt => simp only [apply] at e; injection e with e; subst e; exact beginBlock_good s dt
   | end_ f => simp only [apply] at e; injection e with e; subst e; exact endBlock_good s f
 
@@ -372,6 +379,13 @@ theorem apply_back {s s' : St} {o : Op} (e : apply s o = .ok s') (hne : ∀ f, o
   | update m => exact (updateState_full e hc hi).2
   | fraud au ra hh rev p rw => exact fraud_back e hc hi
   | obsolete au vs => exact (markObsolete_fs e).back hc hi
+  | punish au a rw => exact (punish_fs (punishProposal_ok e).2).back hc hi
+  | transferOwner sg ra' no =>
+    obtain ⟨r, hg, _, _, _, rfl⟩ := transferOwner_ok e
+    exact (FS.setRa (r' := { r with owner := no }) hg rfl).back hc hi
+  | setSeqParams au sp =>
+    obtain ⟨_, hnp, _, rfl⟩ := setSeqParams_ok e
+    exact Back.of_ras_eq rfl
   | begin_ dt =>
     simp only [apply] at e; injection e with e; subst e
     exact (Back.of_ras_eq (s' := { s with h := s.h + 1, t := s.t + dt }) rfl).trans
